@@ -83,6 +83,7 @@ class G:
         self.call_depth = 0
         self.protected = set()
         self.str_lits_only = False
+        self.ranges = {}        # FOR iterators in scope -> (lo, hi) of the values they take
 
     def fault(self):
         """inject a fault here? (at most `faults` per program)"""
@@ -158,6 +159,8 @@ class G:
         if elems: choices.append("elem")
         recs = [(n, t) for n, t in self.env.all_vars().items() if t in self.records and any(f[1] == ty for f in self.records[t])]
         if recs: choices.append("field")
+        arecs = [(n, a) for n, a in self.env.all_arrays().items() if a[0] in self.records and any(f[1] == ty for f in self.records[a[0]])]
+        if arecs: choices += ["elemfield"] * 2
         pts = [(n, t) for n, t in self.env.all_vars().items() if t in self.ptrs and self.ptrs[t] == ty and n in getattr(self, "set_ptrs", set())]
         if pts: choices.append("deref")
         fs = [n for n, (ps, ret) in self.funcs.items() if ret == ty and n != self.in_func]
@@ -174,6 +177,14 @@ class G:
                 if i: idx.append(",")
                 idx += self.index_expr(lo, hi)
             return [n, "["] + idx + ["]"]
+        if c == "elemfield":
+            n, (et, dims) = r.choice(arecs)
+            idx = []
+            for i, (lo, hi) in enumerate(dims):
+                if i: idx.append(",")
+                idx += self.index_expr(lo, hi)
+            f = r.choice([f for f in self.records[et] if f[1] == ty])
+            return [n, "["] + idx + ["]", ".", f[0]]
         if c == "field":
             n, t = r.choice(recs)
             f = r.choice([f for f in self.records[t] if f[1] == ty])
@@ -195,9 +206,13 @@ class G:
             self.features.add("oob_index")
             return [str(r.choice([lo - 1, hi + 1]))] if r.choice([lo - 1, hi + 1]) >= 0 else ["-", str(-(lo - 1))]
         v = r.randint(lo, hi)
-        if r.random() < 0.3:
-            ivs = [n for n in self.vars_of("INTEGER") if n in getattr(self, "known_small", {}) and lo <= self.known_small[n] <= hi]
-            if ivs: return [r.choice(ivs)]
+        if self.ranges and r.random() < 0.6:
+            # a dynamic index: a FOR iterator (shifted if necessary) whose whole range stays inside the bounds
+            it, (a, b) = r.choice(list(self.ranges.items()))
+            if b - a <= hi - lo:
+                shift = r.randint(lo - a, hi - b)
+                if shift == 0: return [it]
+                return [it, "+", str(shift)] if shift > 0 else [it, "-", str(-shift)]
         return [str(v)] if v >= 0 else ["-", str(-v)]
 
     def call_expr(self, fn):
@@ -459,6 +474,15 @@ class G:
                 if i: idx.append(",")
                 idx += self.index_expr(lo, hi)
             targets.append(([n, "["] + idx + ["]"], et))
+        for n, (et, dims) in self.env.all_arrays().items():
+            if et in self.records:
+                idx = []
+                for i, (lo, hi) in enumerate(dims):
+                    if i: idx.append(",")
+                    idx += self.index_expr(lo, hi)
+                for f in self.records[et]:
+                    if not isinstance(f[1], tuple):
+                        targets.append(([n, "["] + idx + ["]", ".", f[0]], f[1]))
         for n, t in list(self.env.all_vars().items()):
             if t in self.records:
                 for f in self.records[t]:
@@ -641,7 +665,11 @@ class G:
         self.env.vars[it] = "INTEGER"; self.protected.add(it)
         self.loop_depth += 1
         self.emit("OUTPUT", strlit("@for "), "&", it)
+        st = 1 if step is None else step
+        if (st > 0 and a <= b) or (st < 0 and a >= b):
+            self.ranges[it] = (min(a, b), max(a, b))
         self.block(depth - 1)
+        self.ranges.pop(it, None)
         self.loop_depth -= 1
         self.emitl(["NEXT"] + ([it] if r.random() < 0.7 else []))
         self.emit("OUTPUT", strlit("after "), "&", it)
